@@ -391,12 +391,84 @@ def run_sync(seed: int, buffered: bool) -> dict[str, Any]:
     }
 
 
+def run_sync_real(seed: int, buffered: bool) -> dict[str, Any]:
+    """The blocking client over a real loopback connection whose peer has already written everything and gone away before the first
+    receive: orderly (FIN), or abortively (RST: SO_LINGER 0, or closing with unread bytes from the client).  The kernel holds the
+    packets; they all have to come out, then the end of the stream - whatever SO_ERROR says meanwhile."""
+    import struct
+
+    from easynetwork.clients.tcp import TCPNetworkClient
+
+    plan = Plan(seed)
+    rng = plan.rng
+    plan.closeat = rng.choice([len(plan.data), len(plan.data), rng.randint(0, len(plan.data))])
+    plan.limit = plan.closeat
+    how = rng.choice(["fin", "rst_linger", "rst_unread"])
+    a, b = harness.loopback_tcp_pair()
+    a.setblocking(True)
+    b.setblocking(True)
+    client = TCPNetworkClient(a, _protocol(buffered), max_recv_size=rng.choice([1, 3, 8, 1024]))
+    try:
+        if how == "rst_unread":
+            client.send_packet("never read by the peer")
+        if plan.limit:
+            b.sendall(plan.data[: plan.limit])
+            plan.wire = plan.limit
+            plan.log("write", idx=plan.limit)
+        import time
+
+        time.sleep(0.02)
+        if how == "rst_linger":
+            b.setsockopt(socket.SOL_SOCKET, socket.SO_LINGER, struct.pack("ii", 1, 0))
+        b.close()
+        plan.closed = True
+        plan.log("close")
+        time.sleep(0.05)
+        for _ in range(len(plan.packets) + 3):
+            op = "iter" if rng.random() < 0.3 else "recv"
+            tmo = rng.choice([None, 1, 0])
+            plan.log("call", op=op, t=-1 if tmo is None else (0 if tmo == 0 else 1))
+            try:
+                if op == "recv":
+                    try:
+                        plan.got(client.recv_packet(timeout=tmo))
+                    except TimeoutError:
+                        plan.log("timeout")
+                    except ConnectionAbortedError:
+                        plan.log("eof")
+                else:
+                    for pkt in client.iter_received_packets(timeout=tmo):
+                        plan.got(pkt)
+                    plan.log("stop")
+            except Exception as exc:  # noqa: BLE001
+                plan.log("error:" + type(exc).__name__)
+        plan.log("end")
+    finally:
+        try:
+            client.close()
+        except Exception:  # noqa: BLE001
+            pass
+        for s_ in (a, b):
+            try:
+                s_.close()
+            except OSError:
+                pass
+    return {
+        "par": plan.par(),
+        "events": traces.uniform(plan.events, EVD),
+        "meta": f"TCPNetworkClient over loopback ({'buffered' if buffered else 'copy'}) seed={seed} packets={plan.packets} closeat={plan.closeat} peer left by {how}",
+    }
+
+
 # ---------------------------------------------------------------------------------------------------------------
 
 
 def _run_three(arg: tuple[int, bool]) -> list[dict[str, Any]]:
     seed, buffered = arg
-    return [run_async(seed, "endpoint", buffered), run_async(seed, "client", buffered), run_sync(seed, buffered)]
+    out = [run_async(seed, "endpoint", buffered), run_async(seed, "client", buffered), run_sync(seed, buffered)]
+    if seed % 4 == 0:
+        out.append(run_sync_real(seed, buffered))
+    return out
 
 
 def run(chk: Check) -> None:
